@@ -8,7 +8,7 @@
    "Decodable" itself is kmsg's codec, an oracle: it is established by the harness
    (every advertised pair x generated bodies through the real handler, reply decoded by
    kmsg at the same version), hence this property is labelled partial. *)
-From KS Require Import lib.Base gen.ApiTables model.ApiVersions proofs.ApiVersionsProofs.
+From KS Require Import lib.Base lib.Wire gen.ApiTables model.ApiVersions proofs.ApiVersionsProofs.
 Open Scope Z_scope.
 
 (* (1) every (key, v) the broker advertises (min <= v <= max, v >= 0): handler.Handle has a
@@ -51,6 +51,24 @@ Theorem C11_proxy : forall k mn mx v,
   encode_header_flexible k v = kafka_header_flexible k v.
 Proof. exact proxy_advertised_served. Qed.
 Print Assumptions C11_proxy.
+
+(* (4) strings in non-flexible responses: the int16 length prefix reads back as the length
+       exactly below 2^15; a longer string (an error message built from a long topic name,
+       say) reads back with a NEGATIVE length and mis-frames the rest of the reply.  Hence
+       the obligation [resp_strings_fit] on every response the handler builds; the harness
+       measures the longest response string per API/version on boundary-size requests and
+       the correspondence check evaluates the obligation on those measurements. *)
+Theorem C11_string_len_prefix : forall n r, 0 <= n < 65536 ->
+  (n < 32768 -> get_i16 (put_i16 n ++ r) = Some (n, r)) /\
+  (32768 <= n -> get_i16 (put_i16 n ++ r) = Some (n - 65536, r) /\ n - 65536 < 0).
+Proof. exact string_len_prefix. Qed.
+Print Assumptions C11_string_len_prefix.
+
+Theorem C11_resp_strings_fit : forall flexible maxlen, 0 <= maxlen < 65536 ->
+  resp_strings_fit flexible maxlen = true ->
+  flexible = true \/ forall n r, 0 <= n <= maxlen -> get_i16 (put_i16 n ++ r) = Some (n, r).
+Proof. exact resp_strings_fit_spec. Qed.
+Print Assumptions C11_resp_strings_fit.
 
 (* non-vacuity: the advertised sets are not empty, contain flexible and non-flexible
    versions, and the special cases are exercised *)
